@@ -57,8 +57,28 @@ def run(ctx) -> None:
         return
     ok_ret = rets[0]
     at_ret = cfg.node(ok_ret)
-    el = [S.element(e_, at_ret) for e_ in ok_ret.value.elts]
-    elt = [_canon_it(norm(x)) if x is not None else None for x in el]
+    def shell_elem(e_: ast.AST) -> Optional[str]:
+        """canonical element (shell I0, vector I1) of a returned array: loop / comprehension forms through Sem.element, and the numpy idioms
+        np.repeat(W, [len(x) for x in SHELLS]) ≡ W[I0],  np.concatenate(SHELLS) ≡ SHELLS[I0][I1]  (dtype conversions ignored)"""
+        x_ = S.element(e_, at_ret)
+        if x_ is not None:
+            return _canon_it(norm(x_))
+        r_ = S.resolve(e_, at_ret)
+        while True:
+            if isinstance(r_, ast.Call) and isinstance(r_.func, ast.Attribute) and r_.func.attr in ("astype", "copy") and call_name(r_) not in ("np.copy",):
+                r_ = r_.func.value
+            elif isinstance(r_, ast.Call) and call_name(r_) in ("np.array", "np.asarray") and r_.args:
+                r_ = r_.args[0]
+            else:
+                break
+        m_ = pmatch(r_, "np.repeat(W_, [len(X_) for X_ in SH_])", {"W_", "X_", "SH_"})
+        if m_ and m_[0][0] is r_ and m_[0][1]["SH_"] in (skcp, sklp):
+            return f"{m_[0][1]['W_']}[I0]"
+        m_ = pmatch(r_, "np.concatenate(SH_)", {"SH_"}) or pmatch(r_, "np.vstack(SH_)", {"SH_"}) or pmatch(r_, "np.concatenate(SH_, axis=0)", {"SH_"})
+        if m_ and m_[0][0] is r_:
+            return f"{m_[0][1]['SH_']}[I0][I1]"
+        return None
+    elt = [shell_elem(e_) for e_ in ok_ret.value.elts]
     WS = None
     if all(x is not None for x in elt) and elt[0].endswith("[I0]"):
         WS = elt[0][:-4]
@@ -92,15 +112,56 @@ def run(ctx) -> None:
         tq = tst.test.left if norm(tst.test.comparators[0]) == tolp else tst.test.comparators[0]
         tres = S.resolve(tq, tnode)
         okq = False
-        for wm in ("W_ * M_", "M_ * W_"):
-            for gram in ("KC_.T.dot(KC_)", "KC_.T @ KC_", "np.dot(KC_.T, KC_)"):
-                for wrap in ("np.array([{g} for KC_ in SKC])", "[{g} for KC_ in SKC]"):
-                    pat = f"np.linalg.norm(sum({wm} for W_, M_ in zip(WS_, {wrap.format(g=gram)})) - np.eye(3))"
-                    m_ = pmatch(tres, pat, {"W_", "M_", "WS_", "KC_", "SKC"})
+        verdict = None          # None: unrecognised, True/False decided
+        GRAMS = ("KC_.T.dot(KC_)", "KC_.T @ KC_", "np.dot(KC_.T, KC_)", "np.matmul(KC_.T, KC_)")
+        SMS = [w_.format(g=g_) for g_ in GRAMS for w_ in ("np.array([{g} for KC_ in SKC])", "[{g} for KC_ in SKC]")]
+        SUMS = [f"sum({wm} for W_, M_ in zip(WS_, {sm}))" for wm in ("W_ * M_", "M_ * W_") for sm in SMS] + \
+               [f"np.tensordot(WS_, {sm}, axes=1)" for sm in SMS] + [f"np.einsum('s,sij->ij', WS_, {sm})" for sm in SMS] + \
+               [f"(WS_[:, None, None] * {sm}).sum(axis=0)" for sm in SMS]
+        METAS_ = {"W_", "M_", "WS_", "KC_", "SKC"}
+        for sm_ in SUMS:
+            for pat in (f"np.linalg.norm({sm_} - np.eye(3))", f"np.linalg.norm(np.eye(3) - {sm_})"):
+                m_ = pmatch(tres, pat, METAS_)
+                if m_ and m_[0][0] is tres:
+                    verdict = m_[0][1]["SKC"] == skcp and WS is not None and m_[0][1]["WS_"] == WS
+        if verdict is None:
+            # the same shapes with some other matrix list in place of [Bᵀ B for B in shells]: a decided mismatch
+            for gen_ in ("sum(W_ * M_ for W_, M_ in zip(WS_, ANY))", "sum(M_ * W_ for W_, M_ in zip(WS_, ANY))", "np.tensordot(WS_, ANY, axes=1)"):
+                for pat in (f"np.linalg.norm({gen_} - np.eye(3))", f"np.linalg.norm(np.eye(3) - {gen_})"):
+                    m_ = pmatch(tres, pat, {"W_", "M_", "WS_", "ANY"})
                     if m_ and m_[0][0] is tres:
-                        okq = m_[0][1]["SKC"] == skcp and WS is not None and m_[0][1]["WS_"] == WS
-        r1.check(okq, f"the tested quantity is ‖Σ_s w_s (Bᵀ B)_s − 1‖ over the very shells and weights that are returned", gw, tst,
-                 f"the tested quantity `{norm1(tq)}` is no longer the deviation of Σ_s w_s Σ_b b bᵀ from the identity for the shells and weights that are returned")
+                        verdict = False
+        if verdict is None:
+            # least-squares form: w, res, rank, sv = np.linalg.lstsq(M.reshape(-1, 9).T, eye.reshape(-1)); the residual is the SQUARED 2-norm
+            core = tres
+            while isinstance(core, ast.Call) and call_name(core) in ("float", "np.float64") and core.args:
+                core = core.args[0]
+            rooted = False
+            if isinstance(core, ast.Call) and call_name(core) in ("np.sqrt", "math.sqrt", "numpy.sqrt") and core.args:
+                core, rooted = core.args[0], True
+            elif isinstance(core, ast.BinOp) and isinstance(core.op, ast.Pow) and const_of(core.right) == 0.5:
+                core, rooted = core.left, True
+            while isinstance(core, ast.Call) and call_name(core) in ("float", "np.float64") and core.args:
+                core = core.args[0]
+            ls = [c_ for c_ in ast.walk(core) if isinstance(c_, ast.Call) and call_name(c_) in ("np.linalg.lstsq", "numpy.linalg.lstsq")]
+            if len(ls) == 1 and pmatch(core, "LS_[1][0]", {"LS_"}) or (len(ls) == 1 and pmatch(core, "LS_[1]", {"LS_"})):
+                a_txt = norm(ls[0].args[0]) if ls[0].args else ""
+                from_shells = skcp in a_txt and ".T" in a_txt and "reshape(-1, 9)" in a_txt
+                wsrc = S.rnorm(ast.parse(WS, mode="eval").body, at_ret) if WS else ""
+                same_fit = "np.linalg.lstsq" in wsrc and wsrc.endswith("[0]")
+                if from_shells and same_fit:
+                    verdict = rooted
+                    if not rooted:
+                        r1.violation(gw, tst, f"the tested quantity `{norm1(tq)}` is the residual returned by np.linalg.lstsq, i.e. the SQUARED 2-norm of "
+                                     f"Σ_s w_s (Bᵀ B)_s − 1; compared with {tolp} it accepts shell sets that miss the identity by up to √{tolp}",
+                                     stmt="squared residual")
+                        verdict = "reported"
+        if verdict is None:
+            r1.expect(False, "", gw, tst, f"get_shell_weights: the quantity compared with {tolp}, `{norm1(tres, 100)}`, is in none of the forms the checker knows "
+                      f"(‖Σ_s w_s (BᵀB)_s − 1‖ as a sum / tensordot / einsum, or the square root of the lstsq residual)")
+        elif verdict != "reported":
+            r1.check(bool(verdict), f"the tested quantity is ‖Σ_s w_s (Bᵀ B)_s − 1‖ over the very shells and weights that are returned", gw, tst,
+                     f"the tested quantity `{norm1(tq)}` is no longer the deviation of Σ_s w_s Σ_b b bᵀ from the identity for the shells and weights that are returned")
     for mname in ("find_bk_vectors", "from_kpoints", "from_nnkp"):
         m = c.methods.get(mname)
         if m is None:
@@ -186,6 +247,9 @@ def run(ctx) -> None:
     fg = c.methods.get("find_G_and_neighbours")
     r3.instance(fg.short)
     _neighbour_rule(r3, idx, fg)
+
+    # ---------------------------------------------------------------- R22.4
+    check_axis_roles(ctx)
 
 
 def _neighbour_rule(r3, idx, fg) -> None:
@@ -427,12 +491,83 @@ def _label_idiom(fg):
     return res
 
 
+def check_axis_roles(ctx) -> None:
+    """R22.4 — in bkvectors.py the mesh divisions (one per reciprocal-lattice vector) are only combined with axes that run over lattice
+    vectors, and Cartesian b-vectors are lattice coordinates contracted with the lattice-vector axis of recip_lattice / mp_grid."""
+    from .roles import RoleMismatch, roles_of
+    idx = ctx.index
+    r4 = ctx.rule("R22.4", "mesh divisions act on the lattice-vector axis (axis-role typing)", min_instances=3)
+    LAT2 = ("lat", "cart")
+
+    def base_for(S, at):
+        def base(e):
+            t = norm(e)
+            short = t[5:] if t.startswith("self.") else t
+            if short == "recip_lattice":
+                return LAT2
+            if short == "mp_grid":
+                return ("lat",)
+            if short in ("bk_grid", "kpt_grid", "bk_latt", "k_latt", "kpt_latt", "bk_red", "kpt_red", "bk_grid_new"):
+                return (None, "lat")
+            if short in ("bk_cart", "k_cart", "kpt_cart"):
+                return (None, "cart")
+            if isinstance(e, ast.Name):
+                ds = S.du.reaching(e.id, at)
+                if len(ds) == 1 and ds[0].kind == "assign" and ds[0].value is not None and e.id not in S._mutated:
+                    try:
+                        return roles_of(ds[0].value, base_for(S, ds[0].node))
+                    except RoleMismatch:
+                        return None
+            return None
+        return base
+    n_sites = 0
+    for f in idx.all_functions():
+        if f.module.relpath != BK:
+            continue
+        S = Sem(idx, f)
+        for st in stmts(f.node):
+            for e in ast.walk(st):
+                if not (isinstance(e, (ast.BinOp, ast.Call)) and "mp_grid" in norm(e)):
+                    continue
+                # only maximal expressions: skip nodes whose parent is also a candidate
+                par = S.pm.get(e)
+                if isinstance(par, (ast.BinOp, ast.Call)) and "mp_grid" in norm(par) and not isinstance(par, ast.Call) or \
+                        (isinstance(par, ast.Attribute) and isinstance(S.pm.get(par), ast.Call)):
+                    continue
+                try:
+                    at = S.cfg.node(st)
+                    r_ = roles_of(e, base_for(S, at))
+                except RoleMismatch as ex:
+                    n_sites += 1
+                    r4.instance(f"{f.short}: {norm1(e, 70)}")
+                    r4.violation(f, st, f"{f.qualname}: {ex.why}: the mesh divisions (one per reciprocal-lattice vector) are applied to the wrong axis, so the "
+                                 f"Cartesian b-vectors are no longer the images of the lattice-coordinate b-vectors (Σ_b w_b b bᵀ ≠ 1 for anisotropic meshes)",
+                                 stmt=norm1(ex.node, 80))
+                    continue
+                if r_ is not None:
+                    n_sites += 1
+                    r4.instance(f"{f.short}: {norm1(e, 70)} : {r_}")
+                    tgt = st.targets[0] if isinstance(st, ast.Assign) and len(st.targets) == 1 and st.value is e else None
+                    if tgt is not None and norm(tgt).split(".")[-1] in ("bk_cart",):
+                        r4.check(r_[-1] == "cart", "bk_cart carries Cartesian components on its last axis", f, st,
+                                 f"`{norm1(st, 80)}` has axis roles {r_}: its last axis is not Cartesian")
+                    else:
+                        r4.ok(f"{f.short}: `{norm1(e, 60)}` is role-consistent {r_}")
+    r4.expect(n_sites >= 3, "expressions with mp_grid typed", BK, None, f"only {n_sites} expressions involving mp_grid could be typed in bkvectors.py")
+
+
 from ..selftest import V  # noqa: E402
 
 SELFTEST = [
     V("completeness test removed for the message mode", BK,
       "        if tol > bk_complete_tol:\n            if msg_if_fail:\n                return \"incomplete shells\"\n            else:",
       "        if tol > bk_complete_tol:\n            if msg_if_fail:\n                pass\n            else:", "fire", "R22.1"),
+    V("mesh divisions applied to the Cartesian axis of recip_lattice (seeded C22-m4)", BK, "self.bk_cart = bk_grid.dot(recip_lattice / self.mp_grid[:, None])",
+      "self.bk_cart = bk_grid.dot(recip_lattice / self.mp_grid[None, :])", "fire", "R22.4"),
+    V("squared lstsq residual compared with the tolerance (seeded C22-m3)", BK,
+      "        check_eye = sum(w * m for w, m in zip(weight_shell, shell_mat))\n        tol = np.linalg.norm(check_eye - np.eye(3))\n",
+      "        check_eye = sum(w * m for w, m in zip(weight_shell, shell_mat))\n        weight_shell, _res, _rk, _sv = np.linalg.lstsq(shell_mat.reshape(-1, 9).T, np.eye(3).reshape(-1), rcond=None)\n        tol = float(_res[0])\n",
+      "fire", "R22.1"),
     V("tolerance compared with the wrong sign", BK, "        if tol > bk_complete_tol:\n            if msg_if_fail:\n                return \"incomplete shells\"",
       "        if tol < bk_complete_tol:\n            if msg_if_fail:\n                return \"incomplete shells\"", "fire", "R22.1"),
     V("tested matrix built from a different shell list", BK, "check_eye = sum(w * m for w, m in zip(weight_shell, shell_mat))",
